@@ -50,11 +50,24 @@ pub fn run(o: &Opts) {
         if cands.is_empty() {
           break;
         }
-        let pt = rng.pick(&cands).0.clone();
+        let mut pt = rng.pick(&cands).0.clone();
+        // sometimes a literal pattern (the text of a node it matches): a finding that binds no variable at all
+        if rng.chance(1, 3) {
+          if let Ok(p0) = ast_grep_core::Pattern::try_new(&pt, lang) {
+            if let Some(n) = nodes.iter().find(|n| n.is_named() && !n.text().contains('$') && !n.text().contains('\n') && n.range().len() < 80 && p0.match_node((*n).clone()).is_some()) {
+              let lit = n.text().to_string();
+              if ast_grep_core::Pattern::try_new(&lit, lang).map(|q| nodes.iter().any(|m| q.match_node(m.clone()).is_some())).unwrap_or(false) {
+                pt = lit;
+              }
+            }
+          }
+        }
         let var = vars_of(&pt).first().cloned();
-        let msg = match (&var, rng.below(3)) {
+        // a message may name a variable the match did not bind (it expands to nothing, in every front end)
+        let msg = match (&var, if var.is_none() && rng.chance(2, 3) { 2 } else { rng.below(4) }) {
           (Some(v), 0) => format!("found ${v} here"),
           (Some(v), 1) => format!("${v}"),
+          (_, 2) => format!("unbound $NOPE and $$$ALSO in message {i}"),
           _ => format!("plain message {i}"),
         };
         let sev = *rng.pick(&["error", "warning", "info", "hint", "warning", "off"]);
